@@ -22,6 +22,22 @@ def inputs(T, B=2, seed=0):
     return [(torch.rand(B, 3, generator=g) < 0.5).float() for _ in range(T)]
 
 
+def not_at_rest(comps):
+    """names of the components whose state differs from a freshly built one (synapse current / spike history, neuron
+    voltage / refractory counter)"""
+    bad = []
+    for name, m in comps:
+        if hasattr(m, "synapse"):
+            syn = m.synapse
+            if float(syn.current.abs().max()) != 0.0 or bool(syn.spike.any()):
+                bad.append(name)
+        else:
+            f = lif(m.batchsz)
+            if not torch.equal(m.voltage, f.voltage) or not torch.equal(m.refrac, f.refrac) or bool(m.spike.any()):
+                bad.append(name)
+    return bad
+
+
 def serial_case(syn, delay, k):
     xs = inputs(9)
     lay = Serial(conn(1, syn, delay), lif(), lambda x: x * 1.5)
@@ -69,6 +85,9 @@ def biclique_case(combine, order):
         lay.clear()
     except Exception as e:
         return {"what": "C17/biclique/clear_exception", "input": dict(combine=combine), "expected": "ok", "actual": f"{type(e).__name__}: {e}"}
+    bad = not_at_rest([(k, cs[k]) for k in "abc"] + [(k, ns[k]) for k in "xy"])
+    if bad:
+        return {"what": "C17/biclique/clear_misses_components", "input": dict(combine=combine, connections=3, neurons=2), "expected": "every connection and neuron group at rest", "actual": bad}
     return None
 
 
@@ -91,6 +110,9 @@ def recurrent_case(k):
             for m in b:
                 m.clear()
             fbprev = None
+            bad = not_at_rest(list(zip(("feedforward", "lateral", "feedback", "ff_neuron", "fb_neuron"), a)))
+            if bad and t > 0:
+                return {"what": "C17/recurrent/clear_misses_components", "input": dict(k=k), "expected": "every connection and neuron group at rest", "actual": bad}
         ff, fb = lay(x)
         if fbprev is None:
             fbprev = torch.zeros(2, 2, dtype=torch.bool)
